@@ -36,7 +36,7 @@ Init0(mode, framing, cap, maxTO, rmin, rmax, txid0) ==
    conn |-> IF mode = "session" THEN "open" ELSE "none",
    rbuf |-> <<>>, eof |-> FALSE, wfail |-> FALSE,
    endReason |-> "", ready |-> {}, wake |-> 0, retryCur |-> rmin, connRes |-> "none",
-   attempts |-> 0, portOk |-> TRUE]
+   attempts |-> 0, portOk |-> TRUE, whold |-> FALSE]
 
 (***************************************************************************)
 (* Output events                                                           *)
@@ -95,7 +95,10 @@ Ending(st, reason) == [st EXCEPT !.pc = "ending", !.endReason = reason, !.cur = 
 (***************************************************************************)
 (* The request loop on an open connection                                  *)
 (***************************************************************************)
-GDequeue == s.pc = "idle" /\ s.queue # <<>>
+\* (a transport that does not take the request's bytes yet -- full send buffer, flow control -- parks the task in its write:
+\* the request counts as transmitted, and its timeout starts, when the write completes)
+WriteParked == s.whold /\ s.queue # <<>> /\ Head(s.queue).t = "req" /\ Head(s.queue).valid /\ ~s.wfail
+GDequeue == s.pc = "idle" /\ s.queue # <<>> /\ ~WriteParked
 Dequeue ==
   /\ GDequeue
   /\ LET h == Head(s.queue)
@@ -325,6 +328,9 @@ ConnectorResult(res) ==
 ConnectorResultRacing(res) ==
   /\ s.pc = "connecting" /\ s.connRes = "none" /\ out' = NoOut
   /\ s' = [s EXCEPT !.connRes = res]
+
+\* the transport stops / resumes taking bytes from the writer
+WriteHold(b) == Quiescent /\ out' = NoOut /\ s' = [s EXCEPT !.whold = b]
 
 \* whether the next attempts to open the serial port succeed
 PortSet(ok) == Quiescent /\ out' = NoOut /\ s' = [s EXCEPT !.portOk = ok]
